@@ -359,9 +359,9 @@ def check_accounting(ctx, ex):
     got = None
     if len(stores) == 1:
         t = stores[0].targets[0]
-        if isinstance(t.slice, ast.Tuple) and len(t.slice.elts) == 2 and isinstance(t.slice.elts[1], ast.Slice):
-            sl = t.slice.elts[1]
-            got = (A.norm(A.expand(t.slice.elts[0], d)), A.norm(A.expand(sl.lower, d)), A.norm(A.expand(sl.upper, d)))
+        sb = A.slice_bounds(t.slice.elts[1], d) if isinstance(t.slice, ast.Tuple) and len(t.slice.elts) == 2 else None
+        if sb is not None and sb[0] is not None and sb[1] is not None:
+            got = (A.norm(A.expand(t.slice.elts[0], d)), A.norm(A.expand(sb[0], d)), A.norm(A.expand(sb[1], d)))
             ok = got == ("epr_cmd_data.ent_results_array_address", "pair_index*OK_FIELDS", "(pair_index+1)*OK_FIELDS")
     ctx.check("C12.A", "_store_ent_info:pair-k-fills-slice-k", ok, f"the response is stored at {got}; expected [results array of the request, k*OK_FIELDS:(k+1)*OK_FIELDS]", repo.loc(m, se), sample={"store": got})
     # virtual qubit k of the request
